@@ -73,3 +73,256 @@ def sym_obj(name: str, klass: str) -> VObj:
 
 def sym_str(name: str) -> VStr:
     return VStr(z3.String(name))
+
+
+# ===========================================================================
+# spec-level readers (never branch) ----------------------------------------
+def hsel(h: Heap, name: str, o):
+    return h.get(name, o)
+
+
+def alloc(h, o):
+    return h.get("$alloc", o)
+
+
+# units
+def qty_cls(h, u):
+    return h.get("Unit._qty_cls", u)
+
+
+def equiv_none(h, u):
+    return h.get("Unit._equiv#none", u)
+
+
+def equiv(h, u):
+    return h.get("Unit._equiv", u)
+
+
+def equiv_tag(h, u):
+    return h.get("Unit._equiv#tag", u)
+
+
+def is_currency(h, u):
+    return h.get("Unit.$is_currency", u)
+
+
+def smallest_fraction(h, u):
+    return h.get("Unit._smallest_fraction", u)
+
+
+def symbol(h, u):
+    return h.get("Unit._symbol", u)
+
+
+def def_none(h, u):
+    return h.get("Unit._definition#none", u)
+
+
+# classes
+def ref_none(h, c):
+    return h.get("QtyCls._ref_unit#none", c)
+
+
+def ref_unit(h, c):
+    return h.get("QtyCls._ref_unit", c)
+
+
+def linear(h, c):
+    """the quantity class has a reference unit"""
+    return z3.Not(ref_none(h, c))
+
+
+def cls_quantum_none(h, c):
+    return h.get("QtyCls._quantum#none", c)
+
+
+def cls_quantum(h, c):
+    return h.get("QtyCls._quantum", c)
+
+
+# quantities
+def amount(h, q):
+    return h.get("Qty._amount", q)
+
+
+def amount_tag(h, q):
+    return h.get("Qty._amount#tag", q)
+
+
+def unit_of(h, q):
+    return h.get("Qty._unit", q)
+
+
+def cls_of(h, q):
+    return h.get("Qty.__class__", q)
+
+
+# the property's own notion of a unit's scale: the product of the numeric
+# factors along its chain of definitions down to the reference unit.  It is an
+# uninterpreted function here; the declaration contracts (C15) establish
+# `_equiv == chain_scale` for every unit they create, `wf_unit` carries it.
+chain_scale = z3.Function("chain_scale", Obj, z3.RealSort())
+
+
+def scale(u):
+    return chain_scale(u)
+
+
+def unit_quantum(h, u):
+    """(has_quantum, quantum) of a unit: the currency's smallest fraction, or
+    the type's quantum divided by the unit's scale."""
+    c = qty_cls(h, u)
+    has = z3.If(is_currency(h, u), TRUE, z3.Not(cls_quantum_none(h, c)))
+    val = z3.If(is_currency(h, u), smallest_fraction(h, u),
+                cls_quantum(h, c) / scale(u))
+    return has, val
+
+
+def q_round(h, x, u):
+    """x rounded once to the unit's quantum with the default rounding mode
+    (x itself if the unit has no quantum)."""
+    has, qu = unit_quantum(h, u)
+    return z3.If(has, z3.ToReal(S.rnd(x / qu, S.DFLT_MODE)) * qu, x)
+
+
+def q_round_facts(h, x, u):
+    _has, qu = unit_quantum(h, u)
+    return S.rnd_fact(x / qu, S.DFLT_MODE)
+
+
+grid_k = z3.Function("grid_k", z3.RealSort(), z3.RealSort(), z3.IntSort())
+
+
+def on_grid(h, a, u):
+    """GridInv as an *assumption*: the amount is an integer multiple of the
+    unit's quantum (the multiplier is the ghost witness grid_k).  As a goal the
+    grid property always follows from a value clause `amount == rnd(..) * qu`."""
+    has, qu = unit_quantum(h, u)
+    return z3.Implies(has, z3.And(qu > 0,
+                                  z3.ToReal(grid_k(a, qu)) * qu == a))
+
+
+def wf_cls(h, c):
+    """representation invariant of a quantity class"""
+    r = ref_unit(h, c)
+    return z3.And(
+        alloc(h, c),
+        # set by QuantityMeta.__new__ / __init__ for every class
+        z3.Not(h.get("QtyCls._converters#unset", c)),
+        z3.Not(h.get("QtyCls._unit_map#unset", c)),
+        z3.Not(h.get("QtyCls._reg_id#unset", c)),
+        alloc(h, h.get("QtyCls._converters", c)),
+        alloc(h, h.get("QtyCls._unit_map", c)),
+        h.get("QtyCls.$unit_cls_is_currency", c) == (c == M.C_MONEY),
+        z3.Implies(linear(h, c), z3.And(
+            alloc(h, r), qty_cls(h, r) == c, z3.Not(equiv_none(h, r)),
+            equiv(h, r) == 1, scale(r) == 1,
+            z3.Not(is_currency(h, r)))),
+        # a quantum needs a reference unit (asserted by QuantityMeta.__new__)
+        z3.Implies(z3.Not(cls_quantum_none(h, c)),
+                   z3.And(linear(h, c), cls_quantum(h, c) > 0,
+                          exact_tag(h.get("QtyCls._quantum#tag", c)))),
+        z3.Implies(c == M.C_QUANTITY, ref_none(h, c)),
+        # Money: no reference unit, no class level quantum
+        z3.Implies(c == M.C_MONEY, z3.And(ref_none(h, c),
+                                           cls_quantum_none(h, c))),
+    )
+
+
+def wf_unit(h, u):
+    """representation invariant of a unit (DESIGN 4.1): a unit of a type with
+    reference unit has a positive scale equal to its chain scale; units of a
+    type without reference unit ("table units": temperature scales,
+    currencies) have none.  Compound units of such types (EUR/kg) are outside
+    (DESIGN section 6, 'observed but outside')."""
+    c = qty_cls(h, u)
+    return z3.And(
+        alloc(h, u), wf_cls(h, c), c != M.C_QUANTITY,
+        is_currency(h, u) == (c == M.C_MONEY),
+        z3.Implies(linear(h, c), z3.And(
+            z3.Not(equiv_none(h, u)), equiv(h, u) > 0,
+            exact_tag(equiv_tag(h, u)), equiv(h, u) == scale(u))),
+        z3.Implies(z3.Not(linear(h, c)), equiv_none(h, u)),
+        z3.Implies(is_currency(h, u), z3.And(
+            smallest_fraction(h, u) > 0,
+            z3.Not(h.get("Unit._smallest_fraction#unset", u)),
+            h.get("Unit._smallest_fraction#tag", u) == T_DEC)),
+    )
+
+
+def wf_qty(h, q):
+    u = unit_of(h, q)
+    return z3.And(alloc(h, q), wf_unit(h, u), cls_of(h, q) == qty_cls(h, u),
+                  exact_tag(amount_tag(h, q)),
+                  on_grid(h, amount(h, q), u))          # GridInv
+
+
+def refval(h, q):
+    return amount(h, q) * scale(unit_of(h, q))
+
+
+# result helpers for quantities ------------------------------------------------
+def qty_result(o: Outcome, pred):
+    """pred(q term, post heap) for a quantity result"""
+    if not (isinstance(o.value, VObj) and o.value.klass == "Qty"):
+        return FALSE
+    return pred(o.value.t, o.heap)
+
+
+def is_notimpl(o: Outcome):
+    return TRUE if isinstance(o.value, VNotImpl) else FALSE
+
+
+def is_none(o: Outcome):
+    return TRUE if isinstance(o.value, VNone) else FALSE
+
+
+def fresh_in(c: Ctx, o_heap: Heap, obj):
+    """obj was allocated by the call"""
+    return z3.And(z3.Not(alloc(c.pre, obj)), alloc(o_heap, obj))
+
+
+def new_qty(c: Ctx, cls_t, amnt_t, tag_t, unit_t) -> VObj:
+    """result builder: a fresh quantity instance"""
+    q = c.alloc("Qty", "q")
+    h = c.heap
+    h.set("Qty._amount", q.t, amnt_t)
+    h.set("Qty._amount#tag", q.t, tag_t)
+    h.set("Qty._unit", q.t, unit_t)
+    h.set("Qty.__class__", q.t, cls_t)
+    return q
+
+
+def fresh_exact_tag(c: Ctx):
+    t = c.fresh("tag", z3.IntSort())
+    c.path.assume(exact_tag(t))
+    return t
+
+
+NUM_KINDS = {
+    "int": lambda n, I: sym_int(n),
+    "Decimal": lambda n, I: sym_rat(n, T_DEC),
+    "Fraction": lambda n, I: sym_rat(n, T_FRAC),
+    "float": lambda n, I: sym_rat(n, T_FLOAT),
+    "StdLibDecimal": lambda n, I: sym_rat(n, T_STDDEC),
+}
+OTHER_KINDS = {
+    "None": lambda n, I: NONE,
+    "str": lambda n, I: sym_str(n),
+    "Unit": lambda n, I: sym_obj(n, "Unit"),
+    "Qty": lambda n, I: sym_obj(n, "Qty"),
+    "SIPrefix": lambda n, I: sym_obj(n, "SIPrefix"),
+    "Term": lambda n, I: sym_obj(n, "Term"),
+    "ExchangeRate": lambda n, I: sym_obj(n, "ExchangeRate"),
+    "tuple": lambda n, I: VTuple([]),
+}
+ALL_KINDS = dict(NUM_KINDS, **OTHER_KINDS)
+
+
+def num_value(v: V):
+    from pyvc.builtins_model import rv
+    return rv(v)
+
+
+def is_num(v: V) -> bool:
+    return isinstance(v, (VInt, VRat))
